@@ -21,3 +21,10 @@ package errlog
 //vc:  set aborted = true
 //vc:  ensures false
 //vc:  xensures aborted
+
+// C12: the device lock (ghost): held after a successful device.SetLock,
+// lockFile is the *os.File whose descriptor carries the flock,
+// lockClosed is set when that file is closed.
+//vc:ghost var lockHeld bool
+//vc:ghost var lockFileRef ref
+//vc:ghost var lockClosed bool
